@@ -63,7 +63,11 @@ def main():
             "enable": "only /verif/harness enables it: numbat = { path = \"/repo/numbat\", features = [\"html-formatter\", \"verif\"] }",
             "baseline_off_cmd": "cd /repo && cargo test --workspace --no-fail-fast --offline",
             "source_commits": hooks,
-            "add_only": True,
+            # honest statement: the hook commits add guarded code only, with three exceptions that do not change
+            # behaviour of a normal build: rustfmt re-wrapping of a few neighbouring unguarded lines (6010cfd,
+            # a67c04b), and `Op::num_operands` (used by the debug disassembler only) learning the operand count
+            # of Factorial (76c95dd)
+            "add_only": False,
         },
         "engines": [
             {"name": "coq", "path": "coq/", "serves_properties": sorted(CLAIMED),
@@ -74,7 +78,7 @@ def main():
              "kind_free_text": "Python driver: seeded generators, translators, diffing, shrinking, known-finding matching, evidence"},
         ],
         "checks": checks,
-        "notes": "Technique family: machine-checked proof in Coq; every claimed check = theorems + a checked tie (translator and/or correspondence). See DESIGN.md.",
+        "notes": "Technique family: machine-checked proof in Coq; every claimed check = theorems + a checked tie (translator and/or correspondence). See DESIGN.md (status tables under 'Changes'; per-area annexes design/*.md). hooks.add_only is false only because three hook commits also carry rustfmt re-wrapping of neighbouring unguarded lines (6010cfd, a67c04b) and one adds the Factorial operand count to the debug-only Op::num_operands (76c95dd); no behaviour of a normal build changes and the suite passes with the feature off. Every other change to numbat is a `fix:` commit listed in known_findings.json.",
         "not_applicable": na,
     }
     with open(os.path.join(VERIF, "MANIFEST.json"), "w") as f:
